@@ -296,6 +296,28 @@ fn draw_data(c: &mut Case) -> Option<Data> {
     let noise = c.rng.logu(0.05, 2.0) * if ssd > 0.0 { ssd } else { 1.0 };
     let scale = c.rng.logu(0.3, 30.0);
     let mut y: Vec<f64> = (0..n).map(|i| scale * (sig[i] + noise * c.rng.normal())).collect();
+    // structured targets: values in equal consecutive pairs (paired measurements), a few levels in sorted runs
+    // (class-like labels sorted by class), or the generic real-valued target
+    match c.rng.below(10) {
+        0 => {
+            for i in (1..n).step_by(2) {
+                y[i] = y[i - 1];
+            }
+            c.bucket("target:equal-consecutive-pairs");
+        }
+        1 => {
+            let levels = c.rng.us(2, 4);
+            let mut sorted = y.clone();
+            sorted.sort_by(|a, b| a.partial_cmp(b).unwrap_or(std::cmp::Ordering::Equal));
+            let run = (n + levels - 1) / levels;
+            let vals: Vec<f64> = (0..levels).map(|l| sorted[(l * run).min(n - 1)]).collect();
+            for i in 0..n {
+                y[i] = vals[(i / run).min(levels - 1)];
+            }
+            c.bucket("target:few-levels-in-sorted-runs");
+        }
+        _ => {}
+    }
     let m0 = mean_v(&y);
     let spread = var_pop(&y).sqrt();
     if !(spread > 0.0) {
